@@ -267,6 +267,14 @@ impl Store {
         &self.shared.io_pool
     }
 
+    /// Mark the store as poisoned: part of a commit failed outside of [`Self::commit`] (the
+    /// rollback log append) and the in-memory state may be ahead of what is on disk.
+    pub fn poison(&self) {
+        self.shared
+            .poisoned
+            .store(true, std::sync::atomic::Ordering::Relaxed);
+    }
+
     /// Get the current hash-table bucket counts.
     pub fn hash_table_utilization(&self) -> HashTableUtilization {
         self.shared.pages.utilization()
